@@ -1,7 +1,9 @@
 pub mod c01;
 pub mod amlprops;
 pub mod c02;
+pub mod c03;
 pub mod c04;
+pub mod c05;
 pub mod c07;
 pub mod c08;
 pub mod c09;
@@ -16,7 +18,9 @@ pub fn run(ctx: &Ctx) -> bool {
     match ctx.prop.as_str() {
         "C01" => c01::run(ctx),
         "C02" => c02::run(ctx),
+        "C03" => c03::run(ctx),
         "C04" => c04::run(ctx),
+        "C05" => c05::run(ctx),
         "C07" => c07::run(ctx),
         "C08" => c08::run(ctx),
         "C09" => c09::run(ctx),
@@ -35,7 +39,9 @@ pub fn replay(prop: &str, check: &str, payload: &serde_json::Value) -> Option<Ve
     Some(match prop {
         "C01" => c01::replay(case),
         "C02" => c02::replay(case),
+        "C03" => c03::replay(case),
         "C04" => c04::replay(case),
+        "C05" => c05::replay(case),
         "C07" => c07::replay(case),
         "C08" => c08::replay(case),
         "C09" => c09::replay(case),
